@@ -170,3 +170,31 @@ def exclusive_source(ctx, clause, option, api="shexer.shaper:Shaper.__init__"):
                           "`%s=%s` in %s can also carry a value taken from %s: the component that receives it no longer works from "
                           "what the user supplied as %s" % (option, norm(arg)[:40], cs.func.short, ", ".join(other[:3]), option)))
     return obs, n
+
+
+def namespace_orientation(ctx, clause):
+    """The package carries two dictionaries of opposite orientation: the user's namespaces_dict (namespace -> prefix) and
+    its reversal (prefix -> namespace, the result of reverse_keys_and_values).  Nothing distinguishes them but what they are
+    copied from, so the rule is about exactly that: no parameter or field may be a plain copy of both - a consumer that
+    looks prefixes up finds none in a dictionary keyed by namespaces and silently leaves every prefixed name as it is."""
+    from ..core import AnalysisError
+    p, g = ctx.p, ctx.flow
+    init = p.func("shexer.shaper:Shaper.__init__")
+    rv = p.func("shexer.utils.dict:reverse_keys_and_values")
+    n2p = g.flows([g.param("shexer.shaper:Shaper.__init__", "namespaces_dict")] + g.field_nodes(p.find_class("Shaper"), "_namespaces_dict"),
+                  labels=("copy",))
+    p2n = g.flows([g.ret(rv)], labels=("copy",))
+    n_a = len([n for n in n2p if n[0] in ("v", "f")])
+    n_b = len([n for n in p2n if n[0] in ("v", "f")])
+    if n_a < 20 or n_b < 6:
+        raise AnalysisError("namespace dictionaries: only %d / %d carriers found (expected at least 20 / 6)" % (n_a, n_b))
+    obs = []
+    for n in sorted((x for x in n2p & p2n if x[0] in ("v", "f")), key=str):
+        f = p.funcs.get(n[1]) if n[0] == "v" else None
+        obs.append(Ob(clause, "R-PLUMB", "R-PLUMB|namespace-orientation|%s" % g.describe(n), f.loc() if f is not None else init.loc(), False,
+                      "%s receives the namespace->prefix dictionary at one call site and the reversed prefix->namespace dictionary at "
+                      "another: one of them is looked up the wrong way round (prefixed names stay unexpanded, or IRIs unshortened)"
+                      % g.describe(n)))
+    obs.append(Ob(clause, "R-PLUMB", "R-PLUMB|namespace-orientation|all", init.loc(), True,
+                  "%d carriers of the namespace->prefix dictionary and %d carriers of its reversal are disjoint" % (n_a, n_b)))
+    return obs
